@@ -14,8 +14,9 @@
 EXTENDS UciThreads, Json, IOUtils, TLCExt
 
 Rec == ndJsonDeserialize(IOEnv.TRACE)
-VARIABLE l
-tv == <<vars, l>>
+VARIABLES l,
+          wb      \* searches whose writer thread has announced its bestmove line (W_Best) and not yet ended
+tv == <<vars, l, wb>>
 Diag(prop, ok, what) == IF ok THEN TRUE ELSE PrintT(<<"DIAG", ToJson([prop |-> prop, l |-> l, what |-> what])>>)
 IsEvent(e) == l <= Len(Rec) /\ Rec[l].ev = e /\ l' = l + 1
 IsThread(a) == l <= Len(Rec) /\ Rec[l].ev = "Thread" /\ Rec[l].a = a /\ l' = l + 1
@@ -72,12 +73,16 @@ TC_Join == /\ IsThread("C_Join")
 TW_Recv == /\ IsThread("W_Recv")
            /\ LET s == Rec[l].s IN Step("W_Recv", s, W_Recv(s), best' = [best EXCEPT ![s] = TRUE]
                                         /\ UNCHANGED <<gvars, cur, nid, main, root, sart, ctl, cst, sst, it, token, status, closed, wst, out, tst, panic, foreign>>)
-TW_End == /\ l <= Len(Rec) /\ Rec[l].ev = "Thread" /\ Rec[l].a \in {"W_End", "W_EndBest"} /\ l' = l + 1
-          /\ LET s == Rec[l].s IN
-               /\ Diag("DRIFT", best[s] = (Rec[l].a = "W_EndBest"), [kind |-> "writer's knowledge of a best line differs from the reports it received", search |-> s, at |-> Where])
-               /\ Diag("C07", Kind(root[s]) = "open" => Rec[l].a = "W_EndBest", [kind |-> "writer thread ended without a bestmove for a position with legal moves", search |-> s, at |-> Where])
-               /\ Step(Rec[l].a, s, W_End(s), wst' = [wst EXCEPT ![s] = "done"] /\ out' = [out EXCEPT ![s] = IF Rec[l].a = "W_EndBest" THEN @ + 1 ELSE @]
+\* the writer is about to print `bestmove` (logged inside the branch that prints)
+TW_Best == /\ IsThread("W_Best") /\ wb' = wb \cup {Rec[l].s} /\ UNCHANGED vars
+TW_End == /\ IsThread("W_End")
+          /\ LET s == Rec[l].s printed == s \in wb IN
+               /\ Diag("C07", best[s] => printed, [kind |-> "writer thread ended without printing a bestmove although a line had been reported", search |-> s, at |-> Where])
+               /\ Diag("C07", printed => best[s], [kind |-> "writer thread printed a bestmove without ever having received a line", search |-> s, at |-> Where])
+               /\ Diag("C07", Kind(root[s]) = "open" => printed, [kind |-> "writer thread ended without a bestmove for a position with legal moves", search |-> s, at |-> Where])
+               /\ Step("W_End", s, W_End(s), wst' = [wst EXCEPT ![s] = "done"] /\ out' = [out EXCEPT ![s] = IF printed THEN @ + 1 ELSE @]
                                         /\ UNCHANGED <<pos, artifact, owed, extra, stale, fresh, n, alive, cur, nid, main, root, sart, ctl, cst, sst, it, token, status, closed, best, tst, panic, foreign>>)
+          /\ wb' = wb \ {Rec[l].s}
 TT_Fire == /\ IsThread("T_Fire")
            /\ LET s == Rec[l].s IN Step("T_Fire", s, T_Fire(s), tst' = [tst EXCEPT ![s] = "done"]
                                         /\ UNCHANGED <<gvars, cur, nid, main, root, sart, ctl, cst, sst, it, token, status, closed, wst, best, out, panic, foreign>>)
@@ -112,9 +117,11 @@ Judge ==
   /\ Diag("C07", NoUnsolicitedBestmove' \/ extra, [kind |-> "bestmove that no go was waiting for", at |-> Where])
   /\ Diag("C07", AnsweredAtBarrier', [kind |-> "command returned while a go is still unanswered", at |-> Where])
 
-TraceInit == Init /\ l = 1
-TraceNext == (TSession \/ TS_Report \/ TS_SendStop \/ TS_Exit \/ TC_Recv \/ TC_Cancel \/ TC_Join \/ TW_Recv \/ TW_End \/ TT_Fire
-              \/ TM_Cmd \/ TM_Stop \/ TM_JoinC \/ TM_JoinW \/ TM_Spawn) /\ Judge
+TraceInit == Init /\ l = 1 /\ wb = {}
+TraceNext == (\/ (TSession /\ wb' = {})
+              \/ TW_Best \/ TW_End
+              \/ ((TS_Report \/ TS_SendStop \/ TS_Exit \/ TC_Recv \/ TC_Cancel \/ TC_Join \/ TW_Recv \/ TT_Fire
+                   \/ TM_Cmd \/ TM_Stop \/ TM_JoinC \/ TM_JoinW \/ TM_Spawn) /\ UNCHANGED wb)) /\ Judge
 Accepted == IF TLCGet("stats").diameter - 1 = Len(Rec) THEN PrintT(<<"ACCEPTED", Len(Rec)>>)
             ELSE PrintT(<<"STUCK", TLCGet("stats").diameter, Len(Rec)>>)
 =============================================================================
